@@ -2,6 +2,7 @@ package main
 
 import (
 	"fmt"
+	"os"
 	"strings"
 	"time"
 )
@@ -15,10 +16,39 @@ func init() {
 }
 
 func runC20(c *Ctx) {
+	only := os.Getenv("VERIF_C20_ONLY") // debugging aid: run one scenario family only (secs1 | cold)
 	// the conservation clauses over the SECS-I transport
-	c20SECS1(c, 6, 2, 3)
-	if c.Thorough() {
-		c20SECS1(c, 16, 6, 8)
+	if only == "" || only == "secs1" {
+		c20SECS1(c, 6, 2, 3)
+		if c.Thorough() {
+			c20SECS1(c, 16, 6, 8)
+		}
+		c20SECS1Faults(c)
+	}
+	if only == "secs1" {
+		return
+	}
+	// cold open (OpenBackground with the peer unreachable: the reconnect loop is started by Open, not by the NotConnected
+	// reaction), then the usual traffic / a drop and reconnect / a Close while still retrying
+	for k := 0; k < c.Pick(3, 10); k++ {
+		if routerStop(c) {
+			return
+		}
+		var sp *rSpec
+		switch k % 3 {
+		case 0:
+			sp = genSpecC06(c, 2+c.Rng.IntN(6), "clean", k)
+		case 1:
+			sp = dropSpec(c, 2+c.Rng.IntN(6), "await", k, k%2 == 1)
+		default:
+			sp = &rSpec{Name: fmt.Sprintf("closecold-%d", k), Seed: c.Rng.Uint64(), Handlers: 1, T3: time.Second, CloseCold: true}
+		}
+		sp.Name = "cold-" + sp.Name
+		sp.ColdDials = 2 + c.Rng.IntN(4)
+		evalHistoryC20(c, sp)
+	}
+	if only == "cold" {
+		return
 	}
 	// sequential per-outcome deltas, with a deselect window
 	for k := 0; k < c.Pick(4, 12); k++ {
@@ -129,10 +159,11 @@ func evalHistoryC20(c *Ctx, sp *rSpec) {
 		c.Violate("correspondence", "scenario-did-not-start", fail, map[string]any{"spec": sp})
 		return
 	}
-	replay := map[string]any{"spec": sp, "calls": h.Calls, "peer_out": h.Out, "peer_in": h.In, "snaps": h.Snaps, "failed_dials": h.FailedDials}
+	replay := map[string]any{"spec": sp, "calls": h.Calls, "peer_out": h.Out, "peer_in": h.In, "snaps": h.Snaps, "failed_dials": h.FailedDials,
+		"retry_gauge_min_max": []int64{h.RetryMin, h.RetryMax}}
 	routerNotes(c, notes, replay)
 	sig := oracleC20(c, sp, h, replay)
-	c.Count(sig, strings.Contains(sig, "|drop") || strings.Count(sig, "#") >= 2)
+	c.Count(sig, strings.Contains(sig, "|drop") || strings.Contains(sig, "|cold") || strings.Count(sig, "#") >= 2)
 	c.Stat("scenario:" + strings.SplitN(sp.Name, "-", 2)[0])
 	if len(c.Res.Samples) < 8 && c.Res.Evaluations%11 == 3 {
 		var sn []string
@@ -158,6 +189,8 @@ func routerNotes(c *Ctx, notes []string, replay map[string]any) {
 			c.Violate("property", "gauge-negative", n, replay)
 		case strings.HasPrefix(n, "RETRY-GAUGE-NOT-POSITIVE"):
 			c.Violate("property", "retry-gauge-not-positive-while-reconnecting", n, replay)
+		case strings.HasPrefix(n, "RETRY-GAUGE-ABOVE-LIVE-LOOPS"):
+			c.Violate("property", "retry-gauge-above-live-loops", n, replay)
 		default:
 			c.Violate("correspondence", "scenario-incomplete", n, replay)
 		}
@@ -228,7 +261,12 @@ func oracleC20(c *Ctx, sp *rSpec, h *rHistory, replay map[string]any) string {
 		if s.M.Inflight != 0 {
 			c.Violate("property", "inflight-not-zero-at-quiescence", fmt.Sprintf("snapshot %q: in-flight gauge = %d with no send call running", s.Label, s.M.Inflight), replay)
 		}
-		if s.M.Retry != 0 {
+		if strings.HasPrefix(s.Label, "retrying") {
+			// taken while exactly one reconnect loop is provably running (it has made a dial attempt and every dial is refused)
+			if s.M.Retry != 1 {
+				c.Violate("property", "retry-gauge-differs-from-live-loops", fmt.Sprintf("snapshot %q: reconnecting gauge = %d while one reconnect loop is running (want 1: positive while a reconnect loop runs, never above the number of live loops)", s.Label, s.M.Retry), replay)
+			}
+		} else if s.M.Retry != 0 {
 			c.Violate("property", "retry-gauge-not-zero-at-quiescence", fmt.Sprintf("snapshot %q (quiescent Selected / closed): reconnecting gauge = %d", s.Label, s.M.Retry), replay)
 		}
 		if k > 0 {
@@ -237,6 +275,9 @@ func oracleC20(c *Ctx, sp *rSpec, h *rHistory, replay map[string]any) string {
 				c.Violate("property", "counter-decreased", fmt.Sprintf("snapshot %q: a cumulative counter went down (%s -> %s)", s.Label, p, s.M), replay)
 			}
 		}
+	}
+	if h.RetryMin < 0 || h.RetryMax > 1 {
+		c.Violate("property", "retry-gauge-out-of-range", fmt.Sprintf("over the whole run the reconnecting gauge was observed between %d and %d (never negative, never above the one live reconnect loop)", h.RetryMin, h.RetryMax), replay)
 	}
 	var q *rSnap
 	for k := range h.Snaps {
@@ -311,6 +352,9 @@ func oracleC20(c *Ctx, sp *rSpec, h *rHistory, replay map[string]any) string {
 	sig := strings.Join(parts, ",")
 	if sp.DropAfter > 0 {
 		sig += fmt.Sprintf("|drop-%s-fail%d", sp.DropMode, sp.FailDials)
+	}
+	if sp.ColdDials > 0 {
+		sig += fmt.Sprintf("|cold-%d-%v", len(h.FailedDials), sp.CloseCold)
 	}
 	return sig
 }
